@@ -5,6 +5,7 @@ compared with the behaviour the specification assigns.  The verdict vocabulary:
   compile-reject   the compiler printed an error for a program of the well-typed family
   compiler-fault   the compiler itself faulted (signal, "Program fault", "Bug:")
   link-fail        generated C did not compile/link
+  javac-fail       generated Java was rejected by javac (route java)
   runtime-fault    the program died by a signal / interpreter fault although the specification says it terminates normally
   wrong-output     standard output differs from the specification's output
   exit-status      success/failure class of the exit status differs
@@ -54,6 +55,9 @@ def classify(res, exp):
         return ("compile-reject", first_error(both) or "rc=%s" % res["rc"])
     if res["phase"] == "link":
         return ("link-fail", (err or out).strip().split("\n")[0][:80])
+    if res["phase"] == "javac":
+        m = re.search(r"error: (.*)", both)
+        return ("javac-fail", (m.group(1) if m else both.strip().split("\n")[0])[:80])
     # the interpreter lists its call stack on stdout when a program halts: a diagnostic, not program output
     got_out = out
     if res["phase"] == "interp" and not got_ok:
@@ -113,16 +117,16 @@ def shape_flags(prog):
 class Family(object):
     """A set of abstract programs with the behaviours TLC assigned to them."""
 
-    def __init__(self, chk, progs, name, cfg="AldorSem", workers=None, timeout=900):
+    def __init__(self, chk, progs, name, cfg="AldorSem", workers=None, timeout=900, module="AldorSem"):
         self.chk = chk
         self.progs = {p["id"]: p for p in progs}
         self.name = name
-        exp, res = progrun.tlc_eval(progs, workers=workers, timeout=timeout, cfg=cfg)
+        exp, res = progrun.tlc_eval(progs, workers=workers, timeout=timeout, cfg=cfg, module=module)
         if res.violated and res.violated != "NoStuck":
             raise vlib.MachineryError("AldorSem: unexpected violation %s\n%s" % (res.violated, res.trace_text[:2000]))
         if res.violated == "NoStuck":
             raise vlib.MachineryError("AldorSem: a generated program is stuck (generator or spec defect)\n%s" % res.trace_text[-3000:])
-        chk.add_tlc("AldorSem[%s]" % name, res)
+        chk.add_tlc("%s[%s]" % (module, name), res)
         self.exp = exp
         self.status_count = {}
         for e in exp.values():
